@@ -10,6 +10,7 @@ import (
 	"net"
 	"runtime/debug"
 	"sort"
+	"strings"
 	"sync"
 	"time"
 	_ "unsafe"
@@ -55,18 +56,19 @@ type Event struct {
 }
 
 type Runtime struct {
-	Step   int64 // global step number (set by the driver)
-	mu     sync.Mutex
-	Seed   uint64
-	byGoid map[uint64]*Task
-	byID   map[int]*Task
-	nextID int
-	parked []*Task
-	muWait []*Task
-	onces  map[*sync.Once]*onceState
-	events map[string]*Event
-	timers map[string]*simTimer
-	root   Task // pseudo task for the driver goroutine (timer ids, rand)
+	denseSel map[string]bool // dense runs: which sites have their statement-granularity points switched on
+	Step     int64           // global step number (set by the driver)
+	mu       sync.Mutex
+	Seed     uint64
+	byGoid   map[uint64]*Task
+	byID     map[int]*Task
+	nextID   int
+	parked   []*Task
+	muWait   []*Task
+	onces    map[*sync.Once]*onceState
+	events   map[string]*Event
+	timers   map[string]*simTimer
+	root     Task // pseudo task for the driver goroutine (timer ids, rand)
 
 	Dial    func(network, addr string, to time.Duration) (net.Conn, error)
 	ListenF func(network, addr string) (net.Listener, error)
@@ -192,6 +194,39 @@ func MemYield(site string) {
 		return
 	}
 	if rt, t := cur(); t != nil {
+		rt.park(t, site)
+	}
+}
+
+// DenseAll switches the statement-granularity scheduling points of every instrumented function on for the current
+// run (the harness draws it per scenario: Meta.Dense). A goroutine may be preempted, and others may run in parallel,
+// between any two plain memory accesses; these runs explore that.
+var DenseAll bool
+
+// MemYieldAll is a scheduling point before a plain statement of any function. In a dense run a seed-chosen subset of
+// the functions (about one in six, by function name) has its points switched on: every function gets its turn over
+// many runs while a single run stays affordable.
+func MemYieldAll(site string) {
+	if !DenseAll {
+		return
+	}
+	rt, t := cur()
+	if t == nil {
+		return
+	}
+	on, ok := rt.denseSel[site]
+	if !ok {
+		fn := site
+		if i := strings.IndexByte(site, '#'); i >= 0 {
+			fn = site[:i]
+		}
+		on = Mix(HashString(fn)^rt.Seed)%6 == 0
+		if rt.denseSel == nil {
+			rt.denseSel = map[string]bool{}
+		}
+		rt.denseSel[site] = on
+	}
+	if on {
 		rt.park(t, site)
 	}
 }
